@@ -39,7 +39,7 @@ ANCHORS = [
     "job_shop_lib.reinforcement_learning._multi_job_shop_graph_env:MultiJobShopGraphEnv.reset",
 ]
 ASSUMPTIONS = ["the snapshot covers the public state of the built-in observers (jsverif/props/_snap.py)"]
-REQUIRED_COUNTERS = {"twin_pairs": 150, "env_episode_comparisons": 60, "multi_env_comparisons": 5,
+REQUIRED_COUNTERS = {"observers_created_mid_history": 30, "twin_pairs": 150, "env_episode_comparisons": 60, "multi_env_comparisons": 5,
                      "trace_states_compared": 1000, "lazy_creations": 20}
 WORKERS = {"quick": 1, "thorough": 14}
 TOKENS = ["unsched", "remaining", "is_completed", "est", "duration", "is_ready", "is_scheduled",
@@ -58,7 +58,8 @@ def gen_cases(ctx):
                  builder=rng.choice(["disjunctive", "agent_task", "with_jobs", "complete"]),
                  h1=rng.choice(["partial", "partial", "complete", "rejected", "one"]),
                  updater_opts=rng.choice([{}, {}, {"remove_completed_machine_nodes": False},
-                                          {"remove_completed_job_nodes": False}]))
+                                          {"remove_completed_job_nodes": False}]),
+                 late=rng.random() < 0.3)
         yield c
     for i in range(ctx.scale(250, 8000)):
         c = gen_history_case(rng, max_jobs=rng.choice([2, 3, 4]), max_machines=rng.choice([2, 3]))
@@ -118,14 +119,18 @@ def run_twin(ctx, case):
     inst = case["instance"]
     A = Run(inst, case.get("filter"))   # h1; reset; h2
     B = Run(inst, case.get("filter"))   # fresh; h2
-    build_observers(ctx, A.d, case)
+    late = case.get("late", False)
+    if not late:
+        build_observers(ctx, A.d, case)
     build_observers(ctx, B.d, case)
-    if [type(s).__name__ for s in A.d.subscribers] != [type(s).__name__ for s in B.d.subscribers]:
-        raise RuntimeError("harness: twins have different observer sets")
     # ---- h1 on A
     n1 = {"partial": rng.randint(1, max(1, A.r.num_ops - 1)), "complete": A.r.num_ops,
           "rejected": rng.randint(1, A.r.num_ops), "one": 1}[case["h1"]]
+    late_at = rng.randint(1, max(1, min(n1, A.r.num_ops))) if late else None
     for k in range(min(n1, A.r.num_ops)):
+        if late and k == late_at - 1 + 0 and not A.d.subscribers and k > 0:
+            build_observers(ctx, A.d, case)   # observers attached to a non-empty dispatcher
+            ctx.count("observers_created_mid_history")
         if case["h1"] == "rejected" and rng.random() < 0.4:
             try:
                 A.d.dispatch(A.op(rng.choice(A.r.ready())), A.r.num_machines + 2)
@@ -133,6 +138,11 @@ def run_twin(ctx, case):
                 pass
         o, m = A.choose(rng, rng.choice(["random_ready", "random_available"]))
         A.dispatch(o, m)
+    if late and not A.d.subscribers:
+        build_observers(ctx, A.d, case)       # at the latest right before the reset
+        ctx.count("observers_created_mid_history")
+    if [type(s).__name__ for s in A.d.subscribers] != [type(s).__name__ for s in B.d.subscribers]:
+        raise RuntimeError("harness: twins have different observer sets")
     h1 = list(A.r.history)
     A.d.reset(); A.r.reset()
     traceA, traceB = [state_of(A.d)], [state_of(B.d)]
